@@ -1,7 +1,7 @@
 (* C20 - invalid set-ups are rejected loudly; valid ones are accepted; unknown keys warn.  Property theorems only (Real/SetupProofs.v over Model/Setup.v and the generated key lists) *)
 From Coq Require Import ZArith Lia Arith Bool List String.
 Import ListNotations.
-From OAS Require Import SetupKeys Setup SetupProofs.
+From OAS Require Import SetupKeys Setup SetupProofs RaiseSites RaiseSitesReviewed RaiseSitesProofs.
 Open Scope string_scope.
 
 (* generate_mesh *)
@@ -108,4 +108,15 @@ Theorem C20_asymmetric_sections_need_root :
   root_section_outcome false n false = Raised PlainException /\ root_section_outcome false n true = Accepted.
 Proof. exact asymmetric_sections_need_root. Qed.
 Print Assumptions C20_asymmetric_sections_need_root.
+
+(* translator tie: every raise statement of the package with the chain of conditions guarding it, REGENERATED from /repo on every run, equals the list the decision model was written from (Model/RaiseSitesReviewed.v); any edit of a guard breaks this obligation *)
+Theorem C20_rejection_guards_are_the_reviewed_ones :
+  gen_raise_sites = reviewed_raise_sites.
+Proof. exact raise_sites_reviewed. Qed.
+Print Assumptions C20_rejection_guards_are_the_reviewed_ones.
+
+Theorem C20_parity_guard_does_not_depend_on_symmetry_or_wing_type :
+  In ("geometry/utils.py", "generate_mesh", "ValueError", ["not num_y % 2"]) gen_raise_sites.
+Proof. exact parity_guard_alone. Qed.
+Print Assumptions C20_parity_guard_does_not_depend_on_symmetry_or_wing_type.
 
